@@ -48,8 +48,48 @@ class PointsFile:
         shutil.rmtree(self.dir, ignore_errors=True)
 
 
+# "For every parameter setting": a user reaches a parameter setting on a LIVE object too - by in-place
+# writes, through .data, by reinitialising first, by installing new Parameter objects.  With REUSE on, the
+# model objects are kept per architecture and re-parameterised by these routes in rotation, so that
+# anything remembered from an earlier setting (a cached normalisation, a stale buffer) shows up.
+REUSE = False
+_POOL = {}
+_ROUTE = [0]
+
+
+def _assign(rbm, name, value):
+    route = _ROUTE[0] % 4
+    _ROUTE[0] += 1
+    p = getattr(rbm, name)
+    with torch.no_grad():
+        if route == 0:
+            p.copy_(value)                                   # in place on the Parameter
+        elif route == 1:
+            p.data.copy_(value)                              # through .data (no autograd version bump)
+        elif route == 2:
+            p.data = value.clone()                           # new storage behind the same Parameter
+        else:
+            setattr(rbm, name, torch.nn.Parameter(value.clone(), requires_grad=False))   # new Parameter object
+
+
+def _pooled(key, make):
+    if not REUSE:
+        return make()
+    st = _POOL.get(key)
+    if st is None:
+        st = _POOL[key] = make()
+    elif _ROUTE[0] % 3 == 0:
+        st.reinitialize_parameters()                         # new Parameter objects, then set below
+    return st
+
+
 def set_net(rbm, net, B):
     lnB = math.log(B)
+    if REUSE:
+        _assign(rbm, "weights", torch.tensor(net["W"], dtype=torch.double) * lnB)
+        _assign(rbm, "visible_bias", torch.tensor(net["b"], dtype=torch.double) * lnB)
+        _assign(rbm, "hidden_bias", torch.tensor(net["c"], dtype=torch.double) * lnB)
+        return
     with torch.no_grad():
         rbm.weights.copy_(torch.tensor(net["W"], dtype=torch.double) * lnB)
         rbm.visible_bias.copy_(torch.tensor(net["b"], dtype=torch.double) * lnB)
@@ -57,13 +97,13 @@ def set_net(rbm, net, B):
 
 
 def positive_state(pt):
-    s = PositiveWaveFunction(pt["nv"], pt["nh"], gpu=False)
+    s = _pooled(("positive", pt["nv"], pt["nh"]), lambda: PositiveWaveFunction(pt["nv"], pt["nh"], gpu=False))
     set_net(s.rbm_am, pt["am"], pt["B"])
     return s
 
 
 def complex_state(pt):
-    s = ComplexWaveFunction(pt["nv"], pt["nh"], gpu=False)
+    s = _pooled(("complex", pt["nv"], pt["nh"]), lambda: ComplexWaveFunction(pt["nv"], pt["nh"], gpu=False))
     set_net(s.rbm_am, pt["am"], pt["B"])
     set_net(s.rbm_ph, pt["ph"], pt["B"])
     return s
@@ -92,20 +132,20 @@ def random_purif_point(rng, nvmax=4, nhmax=4, namax=4, budget=1700, small=False)
 
 
 def density_state(pt):
-    s = DensityMatrix(pt["nv"], pt["nh"], pt["na"], gpu=False)
+    s = _pooled(("density", pt["nv"], pt["nh"], pt["na"]), lambda: DensityMatrix(pt["nv"], pt["nh"], pt["na"], gpu=False))
     lnB = math.log(pt["B"])
     T = lambda x: torch.tensor(x, dtype=torch.double)  # noqa: E731
-    with torch.no_grad():
-        s.rbm_am.weights_W.copy_(T(pt["W"]) * lnB)
-        s.rbm_am.weights_U.copy_(T(pt["u"]) * (2 * lnB))
-        s.rbm_am.visible_bias.copy_(T(pt["b"]) * lnB)
-        s.rbm_am.hidden_bias.copy_(T(pt["c"]) * lnB)
-        s.rbm_am.aux_bias.copy_(T(pt["dd"]) * (2 * lnB))
-        s.rbm_ph.weights_W.copy_(T(pt["Wm"]) * lnB)
-        s.rbm_ph.hidden_bias.copy_(T(pt["cm"]) * lnB)
-        s.rbm_ph.weights_U.copy_(T(pt["um"]) * math.pi)
-        s.rbm_ph.visible_bias.copy_(T(pt["bmm"]) * math.pi)
-        s.rbm_ph.aux_bias.zero_()
+    vals = [(s.rbm_am, "weights_W", T(pt["W"]) * lnB), (s.rbm_am, "weights_U", T(pt["u"]) * (2 * lnB)),
+            (s.rbm_am, "visible_bias", T(pt["b"]) * lnB), (s.rbm_am, "hidden_bias", T(pt["c"]) * lnB),
+            (s.rbm_am, "aux_bias", T(pt["dd"]) * (2 * lnB)), (s.rbm_ph, "weights_W", T(pt["Wm"]) * lnB),
+            (s.rbm_ph, "hidden_bias", T(pt["cm"]) * lnB), (s.rbm_ph, "weights_U", T(pt["um"]) * math.pi),
+            (s.rbm_ph, "visible_bias", T(pt["bmm"]) * math.pi), (s.rbm_ph, "aux_bias", torch.zeros(pt["na"], dtype=torch.double))]
+    for rbm, name, v in vals:
+        if REUSE:
+            _assign(rbm, name, v)
+        else:
+            with torch.no_grad():
+                getattr(rbm, name).copy_(v)
     return s
 
 
